@@ -75,3 +75,23 @@ fix_good_zeroed (FILE *fp, const char *p, size_t n)
     w = 0;
   return w;
 }
+
+/* negative: the outcome goes through a temporary and a conditional expression */
+size_t
+fix_stream_cond_expr (FILE *fp, const char *buf, size_t n)
+{
+  size_t nitems, ret;
+  nitems = fwrite (buf, n, 1, fp);
+  ret = (nitems == 1 ? n : 0);
+  return ret;
+}
+
+/* positive: same shape, but the failure arm also reports the byte count */
+size_t
+fix_stream_cond_expr_bad (FILE *fp, const char *buf, size_t n)
+{
+  size_t nitems, ret;
+  nitems = fwrite (buf, n, 1, fp);
+  ret = (nitems == 1 ? n : n - 1);
+  return ret;
+}
